@@ -27,7 +27,7 @@ SIGNAC_TMP_RE = re.compile(r"^(signac_statepoint\.json~|signac_job_document\.jso
 SP_FILE = "signac_statepoint.json"
 DOC_FILE = "signac_job_document.json"
 
-REKEY_OPS = ("sp_set", "sp_del", "sp_nested_set", "sp_list_append", "sp_list_set", "sp_assign", "sp_update", "sp_reset", "update_statepoint")
+REKEY_OPS = ("sp_set", "sp_del", "sp_nested_set", "sp_nested_set2", "sp_list_append", "sp_list_set", "sp_assign", "sp_update", "sp_reset", "update_statepoint")
 RESET_ROUTES = ("sp_assign", "update_statepoint", "sp_reset", "sp_update")
 
 
@@ -79,6 +79,18 @@ def dep_merge(old, new):
                 out.append(v)
         return out
     return new
+
+
+def _scribble(v):
+    """Change every container of a caller-owned mapping in place (nested ones included)."""
+    if isinstance(v, dict):
+        for x in list(v.values()):
+            _scribble(x)
+        v["scribbled_by_caller"] = 1
+    elif isinstance(v, list):
+        for x in v:
+            _scribble(x)
+        v.append("scribbled_by_caller")
 
 
 def py_equal_but_type_differs(a, b):
@@ -171,7 +183,10 @@ class History:
             return
         if oracle.job_id(sp) in self.idfiles[p]:
             return
-        job = self.projects[p].open_job(json.loads(json.dumps(sp)))
+        given = json.loads(json.dumps(sp))
+        job = self.projects[p].open_job(given)
+        # the caller goes on using (and changing) the mapping it passed in: never the job's business
+        _scribble(given)
         self.new_handle(job, p, sp, kind="sp")
 
     def op_new_init(self, op):
@@ -630,6 +645,9 @@ class History:
             if not isinstance(S.get(k), dict) or "." in k2:
                 return None
             S[k][k2] = v
+            ref = op.get("_ref")  # a reference to the nested mapping taken earlier (sp_nested_set2)
+            if ref is not None:
+                return S, lambda: ref.__setitem__(k2, v)
             return S, lambda: job.sp[k].__setitem__(k2, v)
         if name == "sp_list_append":
             k, v = str(op.get("k", "l")), json.loads(json.dumps(op.get("v")))
@@ -886,6 +904,25 @@ class History:
             self.mm("handle_follow", f"handle[{h['kind']}] after edit raised {type(e).__name__}: {e}; expected sp={expect_sp!r}", detail)
 
     op_sp_set = op_sp_del = op_sp_nested_set = op_sp_list_append = op_sp_list_set = _rekey
+
+    def op_sp_nested_set2(self, op):
+        """Two edits through ONE reference to the nested mapping, taken before the first of them
+        (`model = job.sp.model; model.x = 1; model.y = 2`): the first re-keys the job, the second must count too."""
+        h = self.usable(op)
+        k = str(op.get("k", "n"))
+        if h is None or not isinstance(h["sp"].get(k), dict) or oracle.job_id(h["sp"]) not in self.model[h["p"]]:
+            return
+        try:
+            ref = h["job"].sp[k]
+        except Exception as e:
+            self.mm("handle_sp", f"job.sp[{k!r}] raised {type(e).__name__}: {e} (model {h['sp']!r})")
+            return
+        n0 = len(self.mms)
+        self._rekey({"op": "sp_nested_set", "h": op.get("h", 0), "k": k, "k2": op.get("k2", "x"), "v": op.get("v"), "_ref": ref})
+        if len(self.mms) > n0 or h["stale"] or h.get("broken") or not isinstance(h["sp"].get(k), dict):
+            return
+        self.cl.add("two_edits_through_held_nested_reference")
+        self._rekey({"op": "sp_nested_set", "h": op.get("h", 0), "k": k, "k2": op.get("k3", "y"), "v": op.get("v3"), "_ref": ref})
     op_sp_assign = op_sp_update = op_sp_reset = op_update_statepoint = op_sp_retype = _rekey
 
     def op_move(self, op):
